@@ -533,12 +533,12 @@ def check_group_equality(run, tree):
             run.unresolved(construct, fi.where(), "cannot fold: %s" % e)
 
 
-def make_group(tree, hooks, with_vector=True):
+def make_group(tree, hooks, with_vector=True, shape=(4,)):
     g = new_group(tree, hooks)
-    call_method(tree, hooks, g, "__setitem__", "a", A("a", 4, "m"))
-    call_method(tree, hooks, g, "__setitem__", "b", A("b", 4, "s"))
+    call_method(tree, hooks, g, "__setitem__", "a", ArrTok("a", "m", shape))
+    call_method(tree, hooks, g, "__setitem__", "b", ArrTok("b", "s", shape))
     if with_vector:
-        v, _ = make_vector(tree, {c: "v." + c for c in "xyz"}, unit="cm", shape=(4,), hooks=hooks)
+        v, _ = make_vector(tree, {c: "v." + c for c in "xyz"}, unit="cm", shape=shape, hooks=hooks)
         call_method(tree, hooks, g, "__setitem__", "v", v)
     return g
 
@@ -555,6 +555,11 @@ def member_unit(tree, hooks, m):
     return m.unit.name
 
 
+def _bool_dtype():
+    from .array_folds import DT
+    return DT("bool")
+
+
 def check_group_indexing(run, tree):
     hooks = core_hooks()
     idx_cases = [("integer", 2, 2), ("slice", slice(1, 3, None), slice_key((4,), slice(1, 3, None))),
@@ -562,11 +567,13 @@ def check_group_indexing(run, tree):
                  ("negative-step slice from an offset", slice(-2, None, -1), slice_key((4,), slice(-2, None, -1))),
                  ("strided slice", slice(None, None, 2), slice_key((4,), slice(None, None, 2))),
                  ("boolean mask (ndarray)", RawTok("mask", (4,)), "mask"), ("mask given as an Array", ArrTok("amask", "dimensionless", (4,)), None),
-                 ("integer index array", RawTok("perm", (4,)), "perm")]
+                 ("integer index array", RawTok("perm", (4,)), "perm"),
+                 # members with several values per row ((3, 4) grids): a full boolean mask selects ELEMENTS of every member alike
+                 ("N-d boolean mask on N-d members", RawTok("mask2d", (3, 4), _bool_dtype()), "mask2d")]
     for label, idx, key in idx_cases:
         construct = "%s.__getitem__[%s]" % (DG_Q, label)
         try:
-            g = make_group(tree, hooks)
+            g = make_group(tree, hooks, shape=(3, 4) if label.startswith("N-d") else (4,))
             res = call_method(tree, hooks, g, "__getitem__", idx)
             if not (isinstance(res, PyObj) and res._cls.qual == DG_Q):
                 run.violated(construct, "src/osyris/core/datagroup.py", "returns %r" % (res,), "group[%s]" % label)
